@@ -57,6 +57,10 @@ pub struct Cfg {
     pub iface: String,
     #[serde(default)]
     pub buf: usize,
+    /// order of the Builder calls ("color", "invert", "refresh", "orient", "size", "offset", "rst"; a trailing "0" is a
+    /// decoy call of the same kind with other values, overridden by the real one later); default order if absent
+    #[serde(default)]
+    pub border: Option<Vec<String>>,
 }
 
 #[derive(Deserialize, Clone)]
@@ -331,16 +335,27 @@ pub fn rot_index(r: Rotation) -> u8 {
 pub trait Ops {
     fn call(&mut self, name: &str, a: &Value, x: &mut Map<String, Value>) -> Result<(), ErrInfo>;
     fn obs(&self) -> Value;
+    /// `Display::release()` and a new `Builder::new(model, di) ... init()` over the very same interface, model and
+    /// reset pin objects
+    fn reinit(self: Box<Self>, _c: &Cfg) -> Built {
+        panic!("HARNESS: reinit is for displays")
+    }
 }
 
 impl<DI, M, RST> Ops for Display<DI, M, RST>
 where
-    DI: Interface,
+    DI: Interface + 'static,
     DI::Error: ErrPath,
-    M: Model,
+    M: Model + 'static,
     M::ColorFormat: InterfacePixelFormat<DI::Word> + HColor,
-    RST: OutputPin,
+    RST: OutputPin + 'static,
+    RST::Error: PinK,
 {
+    fn reinit(self: Box<Self>, c: &Cfg) -> Built {
+        let (di, m, rst) = self.release();
+        finish_with(Builder::new(m, di), c, rst)
+    }
+
     fn call(&mut self, name: &str, a: &Value, x: &mut Map<String, Value>) -> Result<(), ErrInfo> {
         let budget = TL.with(|t| t.borrow().budget);
         let r: Result<(), DI::Error> = match name {
@@ -612,35 +627,97 @@ fn orientation(c: &Cfg) -> Orientation {
 
 type Built = Result<Box<dyn Ops>, ErrInfo>;
 
-fn finish<DI, M>(mut b: Builder<DI, M, NoResetPin>, c: &Cfg) -> Built
+fn default_steps(c: &Cfg) -> Vec<String> {
+    let mut v: Vec<String> = ["color", "invert", "refresh", "orient", "size", "offset"].iter().map(|s| s.to_string()).collect();
+    if c.rst {
+        v.push("rst".into());
+    }
+    v
+}
+
+fn apply_steps<DI, M, RST>(mut b: Builder<DI, M, RST>, steps: &[String], c: &Cfg) -> Builder<DI, M, RST>
+where
+    DI: Interface,
+    M: Model,
+    M::ColorFormat: InterfacePixelFormat<DI::Word>,
+    RST: OutputPin,
+{
+    for s in steps {
+        b = match s.as_str() {
+            "color" => b.color_order(color_order(c)),
+            "invert" => b.invert_colors(inversion(c)),
+            "refresh" => b.refresh_order(refresh(c)),
+            "orient" => b.orientation(orientation(c)),
+            "size" => match (c.w, c.h) {
+                (Some(w), Some(h)) => b.display_size(w, h),
+                _ => b,
+            },
+            "offset" => match (c.ox, c.oy) {
+                (Some(ox), Some(oy)) => b.display_offset(ox, oy),
+                _ => b,
+            },
+            // decoys
+            "color0" => b.color_order(if c.bgr { ColorOrder::Rgb } else { ColorOrder::Bgr }),
+            "invert0" => b.invert_colors(if c.inv { ColorInversion::Normal } else { ColorInversion::Inverted }),
+            "refresh0" => {
+                let mut o = c.clone();
+                o.refv ^= 1;
+                o.refh ^= 1;
+                b.refresh_order(refresh(&o))
+            }
+            "orient0" => {
+                let mut o = c.clone();
+                o.rot = (o.rot + 1) % 4;
+                o.mir = !o.mir;
+                b.orientation(orientation(&o))
+            }
+            "size0" => b.display_size(1, 1),
+            "offset0" => b.display_offset(1, 0),
+            o => panic!("HARNESS: builder step {o}"),
+        };
+    }
+    b
+}
+
+/// Builder calls in the configured order; the reset pin (if any) is attached where the order says
+fn finish_with<DI, M, R>(b: Builder<DI, M, NoResetPin>, c: &Cfg, rst: Option<R>) -> Built
+where
+    DI: Interface + 'static,
+    DI::Error: ErrPath,
+    M: Model + 'static,
+    M::ColorFormat: InterfacePixelFormat<DI::Word> + HColor,
+    R: OutputPin + 'static,
+    R::Error: PinK,
+{
+    let steps = c.border.clone().unwrap_or_else(|| default_steps(c));
+    match rst {
+        Some(pin) => {
+            let at = steps.iter().position(|s| s == "rst").unwrap_or(steps.len());
+            let b = apply_steps(b, &steps[..at], c).reset_pin(pin);
+            let rest: &[String] = if at < steps.len() { &steps[at + 1..] } else { &[] };
+            match apply_steps(b, rest, c).init(&mut RecDelay) {
+                Ok(d) => Ok(Box::new(d)),
+                Err(e) => Err(init_err_info(&e)),
+            }
+        }
+        None => {
+            let steps: Vec<String> = steps.into_iter().filter(|s| s != "rst").collect();
+            match apply_steps(b, &steps, c).init(&mut RecDelay) {
+                Ok(d) => Ok(Box::new(d)),
+                Err(e) => Err(init_err_info(&e)),
+            }
+        }
+    }
+}
+
+fn finish<DI, M>(b: Builder<DI, M, NoResetPin>, c: &Cfg) -> Built
 where
     DI: Interface + 'static,
     DI::Error: ErrPath,
     M: Model + 'static,
     M::ColorFormat: InterfacePixelFormat<DI::Word> + HColor,
 {
-    b = b
-        .color_order(color_order(c))
-        .invert_colors(inversion(c))
-        .refresh_order(refresh(c))
-        .orientation(orientation(c));
-    if let (Some(w), Some(h)) = (c.w, c.h) {
-        b = b.display_size(w, h);
-    }
-    if let (Some(ox), Some(oy)) = (c.ox, c.oy) {
-        b = b.display_offset(ox, oy);
-    }
-    if c.rst {
-        match b.reset_pin(RecPin(PinId::Rst)).init(&mut RecDelay) {
-            Ok(d) => Ok(Box::new(d)),
-            Err(e) => Err(init_err_info(&e)),
-        }
-    } else {
-        match b.init(&mut RecDelay) {
-            Ok(d) => Ok(Box::new(d)),
-            Err(e) => Err(init_err_info(&e)),
-        }
-    }
+    finish_with(b, c, if c.rst { Some(RecPin(PinId::Rst)) } else { None })
 }
 
 fn build8<M>(m: M, c: &Cfg) -> Built
@@ -994,6 +1071,20 @@ pub fn run_scenario(sc: &Scenario, out: &mut dyn Write) {
         let mut x = Map::new();
         if name == "init" {
             let r = catch_unwind(AssertUnwindSafe(|| build_display(c)));
+            let (res, built) = classify(r);
+            let ops = end_call();
+            let obs = match &built {
+                Some(d) => d.obs(),
+                None => json!({}),
+            };
+            obj = built;
+            emit(out, sc.id, i, &name, call, &res, obs, x, ops);
+            if obj.is_none() {
+                break;
+            }
+        } else if name == "reinit" {
+            let old = obj.take().expect("HARNESS: reinit without a display");
+            let r = catch_unwind(AssertUnwindSafe(|| old.reinit(c)));
             let (res, built) = classify(r);
             let ops = end_call();
             let obs = match &built {
